@@ -801,9 +801,11 @@ Section Proofs.
       - intros E; injection E as <- <-. cbn. discriminate.
       - destruct (lookup q (fs_files fs)) as [src|] eqn:Hf; [|intros _ _ _ _ H; congruence].
         dfoldg g1 res E1. intros E; injection E as <- <-. intros Ho Hd Hq _ Hpend Hanc.
-        destruct (fold_load_import_acyc _ _ _ _ _ _ _ _ anc (parse_mono _) IH Ho (Hd : l_diags (add_log q g) = []) Hq) with (2 := E1) as [Hd1 Hp1]; auto.
-        + intros i t Hi Ht. exists src, i. auto.
-        + split; [exact Hd1|split; [discriminate|exact Hp1]].
+        assert (His : forall i t, In i (imports_of src) -> In t (targets fs i) -> sedge q t).
+        { intros i t Hi Ht. exists src, i. auto. }
+        destruct (fold_load_import_acyc _ _ _ _ _ _ _ _ anc (parse_mono _) IH Ho (Hd : l_diags (add_log q g) = []) Hq His
+                    (Hpend : pending_in (add_log q g) anc) Hanc E1) as [Hd1 Hp1].
+        split; [exact Hd1|split; [discriminate|exact Hp1]].
     Qed.
 
     Theorem acyclic_no_diag :
